@@ -88,6 +88,42 @@ pub fn main(run_once: RunOnce) -> i32 {
             quiet_stderr();
             campaign::replay_cmd(&PathBuf::from(p))
         }
+        Some("digests") => {
+            // determinism proof: print the event-log digest of every run index; run this in two
+            // processes with different --threads and diff the outputs
+            let property = args.get(2).cloned().unwrap_or_default();
+            let seed: u64 = arg_val(&args, "--seed").and_then(|s| s.parse().ok()).unwrap_or(1);
+            let threads: usize = arg_val(&args, "--threads").and_then(|s| s.parse().ok()).unwrap_or(16);
+            let runs: u64 = arg_val(&args, "--runs").and_then(|s| s.parse().ok()).unwrap_or(1000);
+            let tier = match arg_val(&args, "--tier").as_deref() {
+                Some("thorough") => oracle::Tier::Thorough,
+                _ => oracle::Tier::Quick,
+            };
+            quiet_stderr();
+            let base = campaign::scratch_base();
+            let next = std::sync::atomic::AtomicU64::new(0);
+            let out = std::sync::Mutex::new(std::collections::BTreeMap::new());
+            std::thread::scope(|s| {
+                for tid in 0..threads {
+                    let (next, out, base, property) = (&next, &out, &base, &property);
+                    s.spawn(move || loop {
+                        let i = next.fetch_add(1, std::sync::atomic::Ordering::SeqCst);
+                        if i >= runs {
+                            break;
+                        }
+                        let case = oracle::gen_case(property, campaign::run_seed(seed, property, i), tier);
+                        let r = oracle::evaluate(&case, base, &format!("d{tid}"));
+                        let sigs: Vec<String> = r.violations.iter().map(|v| v.signature()).collect();
+                        out.lock().unwrap().insert(i, format!("{:016x} {:?}", r.event_digest, sigs));
+                    });
+                }
+            });
+            for (i, d) in out.into_inner().unwrap() {
+                println!("{i} {d}");
+            }
+            let _ = std::fs::remove_dir_all(&base);
+            0
+        }
         Some("catalog") => {
             quiet_stderr();
             catalog()
